@@ -163,6 +163,12 @@ impl Hypergeometric {
             return Err(Error::SampleSizeTooLarge);
         }
 
+        // The set-up below does arithmetic on population sizes in `i64`
+        // (`offset_x`, `sign_x`) and computes `n + 2`.
+        if total_population_size > i64::MAX as u64 - 2 {
+            return Err(Error::PopulationTooLarge);
+        }
+
         // set-up constants as function of original parameters
         let n = total_population_size;
         let (mut sign_x, mut offset_x) = (1, 0);
